@@ -20,6 +20,8 @@ import (
 	"verifsim/tape"
 )
 
+var pPreemptions = simrt.NewProbe("scheduler.statement-level.preemptions")
+
 // Violation is what an oracle reports. (Oracle, Op, Detail) is the signature
 // used for shrinking, replay verification and known-findings matching; it
 // must not contain run-specific data (seeds, offsets, addresses).
@@ -131,6 +133,9 @@ func (c *Ctx) World(setup func(w *kernel.World)) (out kernel.Outcome, w *kernel.
 		synctest.Test(c.TB, func(_ *testing.T) {
 			w = kernel.NewWorld(c.T)
 			w.TraceOn = c.Trace
+			if c.Tier == "thorough" {
+				w.MaxPreempt = 20000
+			}
 			setup(w)
 			out = w.Run()
 			c.Steps += w.Steps
@@ -145,6 +150,7 @@ func (c *Ctx) World(setup func(w *kernel.World)) (out kernel.Outcome, w *kernel.
 			if w.Switches > len(w.Tasks()) {
 				c.Nontrivial = true
 			}
+			pPreemptions.Add(w.Preemptions)
 			if c.Trace {
 				for _, te := range w.Trace {
 					if te.Task == "fault" {
